@@ -139,7 +139,7 @@ func c20(r *ev.Run) {
 	}
 	defer s.Close()
 	rnd := rand.New(rand.NewSource(r.Seed + 20))
-	rounds := 4
+	rounds := 8
 	if r.Tier == "thorough" {
 		rounds = 60
 	}
